@@ -354,6 +354,12 @@ def sec_expr(ctx, rng, case):
         if ch1 is None or ch2 is None:
             ctx.reject("chain-out-of-domain")
             return
+        # the chains reproduce env only up to rounding; x**y with x < 0 is discontinuous in y, so the expected values are
+        # the model's values at the chains' own fixed points (out-of-domain there -> rejected, counted)
+        o1, o2 = _chain_want(ctx, expr, ch1, names), _chain_want(ctx, expr, ch2, names)
+        if o1 is None or o2 is None:
+            return
+        (want, scale), (want2, scale2) = o1, o2
         p1, p2 = cirq.ParamResolver(mk_resolver(rng, ch1, wrap=False)), cirq.ParamResolver(mk_resolver(rng, ch2, wrap=False))
         for rnd in range(2):
             g1, g2 = p1.value_of(expr), p2.value_of(expr)
@@ -397,11 +403,26 @@ def _chain_defs(rng, env, names):
     return defs
 
 
+def _chain_want(ctx, expr, defs, names):
+    """(value, scale) of expr at the fixed point of the chain definitions, by the model; None when out of domain there"""
+    import sympy
+
+    tdefs = {k: (sympy.Symbol(v) if isinstance(v, str) else v) for k, v in defs.items()}
+    menv, looping, open_ = EV.fixed_point_env(tdefs)
+    if looping or open_:
+        raise AssertionError("chain generator produced a loop")
+    return two_opinions(ctx, expr, {s_: float(menv[s_]) for s_ in names})
+
+
 def _expr_chain(ctx, rng, expr, env, names, want, scale, wit):
     import cirq
     import sympy
 
     defs = _chain_defs(rng, env, names)
+    op_ = _chain_want(ctx, expr, defs, names)
+    if op_ is None:
+        return
+    want, scale = op_
     tdefs = {k: (sympy.Symbol(v) if isinstance(v, str) else v) for k, v in defs.items()}
     menv, looping, open_ = EV.fixed_point_env(tdefs)
     if looping or open_:
